@@ -492,9 +492,19 @@ Example t216 : REJ 16 [0;4;77;81;84;84;5;2;0;60;6;17;0;0;0;5;0;0]. Proof. verdic
 (* CONNECT rl 0 *)
 Example t217 : REJ 16 []. Proof. verdict. Qed.
 
-(* the non-vacuity witnesses: what the accepted packets look like *)
-Eval vm_compute in m_ Debug 64 [0;1;0;128;0].
-Eval vm_compute in g_ false 130 [0;1;3;11;129;0;0;1;97;0].
-Eval vm_compute in m_ Debug 130 [0;1;3;11;129;0;0;1;97;0].
-Eval vm_compute in V5.block_decode Debug (V3.mk_header PSubscribe 10) TEof [0;1;3;11;129;0;0;1;97;0].
-Eval vm_compute in V5.block_decode Debug (V3.mk_header PSubscribe 10) TEof [0;1;2;11;129;0;0;1;97;0].
+(* what the code does on the SUBSCRIBE frame whose subscription identifier 1 is spelled 81 00
+   (t140 / t141): the running count of decode_properties! adds the MINIMAL width of the identifier,
+   so with property length 3 the loop reads on into the topic filter (property id 0), and with
+   property length 2 the recomputed remaining length is one more than what is left. *)
+Example t140_model : V5.block_decode Debug (V3.mk_header PSubscribe 10) TEof [0;1;3;11;129;0;0;1;97;0]
+                     = RErr (InvalidPropertyId 0).
+Proof. vm_compute. reflexivity. Qed.
+Example t141_model : V5.block_decode Debug (V3.mk_header PSubscribe 10) TEof [0;1;2;11;129;0;0;1;97;0]
+                     = RErr (IoError 0).
+Proof. vm_compute. reflexivity. Qed.
+
+(* the three statements on a frame of each verdict *)
+Example t45_three : three 64 [0;1;0;128;0]. Proof. apply nmacc_three. verdict. Qed.
+Example t140_three : three 130 [0;1;3;11;129;0;0;1;97;0]. Proof. apply nmrej_three. verdict. Qed.
+Example t75_three : three 32 [0;0;2;36;1]. Proof. apply acc_three. verdict. Qed.
+Example t63_three : three 64 [0;1;0;129;0;0]. Proof. apply rej_three. verdict. Qed.
